@@ -49,6 +49,7 @@ TraceNext ==
           [] e.a = "Call" ->
                /\ Chk(obs'.res # "Crash", "P", e, "C15_NoCrash")
                /\ Chk(P_Call(CallOf(e)), "P", e, "C15_DeniedNoEffect")
+               /\ Chk(P_Denial, "P", e, "C15_DenialClean")
                /\ Chk(policy' = policy /\ policyFile' = policyFile, "P", e, "C15_PolicyStable")
                /\ IF e.args.call.m \in Methods THEN Chk(DoCall(CallOf(e)), "I", e, "Call") ELSE TRUE
           [] e.a = "EditPolicy" ->
